@@ -70,9 +70,11 @@ var c09Verdicts = []Verdict{
 // Verdicts that depend on the request: a child that rejects only its first EVENT (a rate limiter)
 // and one that accepts only its first EVENT (a store answering "duplicate" afterwards).
 const (
-	C09RejectFirst  = 4
-	C09AcceptFirst  = 5
-	C09VerdictModes = 6
+	C09RejectFirst = 4
+	C09AcceptFirst = 5
+	// an accepting OK that carries a text (NIP-01: OK true "duplicate: already have this event")
+	C09AcceptText   = 6
+	C09VerdictModes = 7
 )
 
 func c09VerdictAt(mode, k int) Verdict {
@@ -87,6 +89,8 @@ func c09VerdictAt(mode, k int) Verdict {
 			return Verdict{Accept: true}
 		}
 		return Verdict{Accept: false, Prefix: mocrelay.MachineReadablePrefixDuplicate, Msg: "d"}
+	case C09AcceptText:
+		return Verdict{Accept: true, Prefix: mocrelay.MachineReadablePrefixDuplicate, Msg: "have"}
 	}
 	return c09Verdicts[mode]
 }
